@@ -47,6 +47,8 @@ func main() {
 		d.suiteRandom()
 	case "readers":
 		d.suiteReaders()
+	case "repro":
+		d.suiteRepro()
 	case "all":
 		d.suiteSizes()
 		d.suitePrograms()
